@@ -134,18 +134,10 @@ func decode(h *hz.H, md protoreflect.MessageDescriptor, in []byte, space string,
 				proto.Equal(g2, g)
 				// ... and with a message that differs from it: same known fields, other unknown bytes of the same length
 				// (protobuf-go then parses both unknown sets; whatever the decoder stored there must be parseable)
-				if u := g.ProtoReflect().GetUnknown(); len(u) >= 2 && len(u) < 130 {
-					w := make([]byte, 0, len(u))
-					w = append(w, 0x7a, byte(len(u)-2)) // field 15, length-delimited
-					for len(w) < len(u) {
-						w = append(w, 0x55)
-					}
-					if !bytes.Equal(w, u) {
-						g2.ProtoReflect().SetUnknown(w)
-						step = "Equal(with a message holding other unknown bytes)"
-						proto.Equal(g, g2)
-						proto.Equal(g2, g)
-					}
+				if setWitness(g.ProtoReflect(), g2.ProtoReflect(), 0) {
+					step = "Equal(with a message holding other unknown bytes)"
+					proto.Equal(g, g2)
+					proto.Equal(g2, g)
 				}
 			}
 		}
@@ -261,6 +253,7 @@ func main() {
 	runDepth(h, types)
 	runNestedAlloc(h, types)
 	runMergeIntoArtefacts(h, types)
+	runUnknownGroupDepth(h, types)
 	h.AddExtra("inputs_accepted", accepted.Load())
 	h.AddExtra("inputs_rejected", rejected.Load())
 	if accepted.Load() < 1000 || rejected.Load() < 1000 {
@@ -833,6 +826,87 @@ func runMergeIntoArtefacts(h *hz.H, types []protoreflect.MessageDescriptor) {
 		}
 	}
 	h.Rep.Bounds["merge_into_artefact_decodes"] = n
+}
+
+// witnessFor builds unknown bytes of exactly n bytes (n >= 2) that differ from u: one length-delimited record of field 15
+// filled with 0x55, preceded by a two-byte varint record where no single record has that size.
+func witnessFor(u []byte) []byte {
+	n := len(u)
+	for _, pre := range [][]byte{nil, {0x78, 0x00}} {
+		rest := n - len(pre)
+		for k := 1; k <= 5; k++ {
+			l := rest - 1 - k
+			if l >= 0 && protowire.SizeVarint(uint64(l)) == k {
+				w := append([]byte(nil), pre...)
+				w = protowire.AppendVarint(append(w, 0x7a), uint64(l))
+				w = append(w, bytes.Repeat([]byte{0x55}, l)...)
+				if !bytes.Equal(w, u) {
+					return w
+				}
+			}
+		}
+	}
+	return nil
+}
+
+// setWitness finds the first message of a (depth-first through populated message fields) that holds unknown bytes and
+// gives its counterpart in b other unknown bytes of the same length: proto.Equal then parses both sets.
+func setWitness(a, b protoreflect.Message, depth int) bool {
+	if depth > 12 || !a.IsValid() || !b.IsValid() {
+		return false
+	}
+	if u := a.GetUnknown(); len(u) >= 2 {
+		if w := witnessFor(u); w != nil {
+			b.SetUnknown(w)
+			return true
+		}
+	}
+	done := false
+	a.Range(func(fd protoreflect.FieldDescriptor, v protoreflect.Value) bool {
+		switch {
+		case fd.IsMap() || fd.IsList() || fd.Message() == nil:
+			return true
+		case b.Has(fd):
+			done = setWitness(v.Message(), b.Mutable(fd).Message(), depth+1)
+		}
+		return !done
+	})
+	return done
+}
+
+// runUnknownGroupDepth: unknown groups nested around protowire's limit (10001 levels), at the top level and one message
+// level down: whatever the decoder accepts and keeps must be readable again by protobuf-go (proto.Equal parses it).
+func runUnknownGroupDepth(h *hz.H, types []protoreflect.MessageDescriptor) {
+	n := 0
+	for _, md := range types {
+		if lite && n >= 16 {
+			break
+		}
+		ua := enum.UnknownAlphabet(md, enum.Reduced)
+		num, _, _ := protowire.ConsumeTag(ua[0])
+		for _, levels := range []int{10000, 10001, 10002, 10003, 20000} {
+			in := append(bytes.Repeat(protowire.AppendTag(nil, num, protowire.StartGroupType), levels), bytes.Repeat(protowire.AppendTag(nil, num, protowire.EndGroupType), levels)...)
+			decode(h, md, in, "unknown-group-depth", true)
+			h.Eval(true, hz.Hash("ugd", string(md.FullName()), fmt.Sprint(levels)))
+			n++
+			// the same one message level down, through the first singular message field of a pulsar type
+			fs := md.Fields()
+			for i := 0; i < fs.Len(); i++ {
+				fd := fs.Get(i)
+				if fd.Message() == nil || fd.IsList() || fd.IsMap() || !enum.IsPulsar(fd.Message()) {
+					continue
+				}
+				ub := enum.UnknownAlphabet(fd.Message(), enum.Reduced)
+				inum, _, _ := protowire.ConsumeTag(ub[0])
+				inner := append(bytes.Repeat(protowire.AppendTag(nil, inum, protowire.StartGroupType), levels), bytes.Repeat(protowire.AppendTag(nil, inum, protowire.EndGroupType), levels)...)
+				decode(h, md, protowire.AppendBytes(protowire.AppendTag(nil, protowire.Number(fd.Number()), protowire.BytesType), inner), "unknown-group-depth", true)
+				h.Eval(true, hz.Hash("ugd1", string(md.FullName()), fmt.Sprint(levels)))
+				n++
+				break
+			}
+		}
+	}
+	h.Rep.Bounds["unknown_group_depth_decodes"] = n
 }
 
 func deepRangeN(m protoreflect.Message) { deepRange(m, -100000) }
